@@ -341,6 +341,29 @@ class Evaluator:
         base = self.ev(node.value)
         return self.getattr(base, node.attr, node)
 
+    def getattr_delegate(self, base):
+        """the concrete value a class's `__getattr__` forwards to, when it has
+        the form `return getattr(self.<x>, name)` and <x> is concrete"""
+        ga = base.cls.find_method("__getattr__")
+        if ga is None or len(ga.params) != 2:
+            return NotImplemented
+        body = [st for st in ga.node.body if not (
+            isinstance(st, ast.Expr) and isinstance(st.value, ast.Constant))]
+        if len(body) == 1 and isinstance(body[0], ast.Return) and \
+                isinstance(body[0].value, ast.Call) and \
+                isinstance(body[0].value.func, ast.Name) and \
+                body[0].value.func.id == "getattr" and \
+                len(body[0].value.args) == 2:
+            tgt, nm = body[0].value.args
+            if isinstance(tgt, ast.Attribute) and \
+                    isinstance(tgt.value, ast.Name) and \
+                    tgt.value.id == ga.params[0] and \
+                    isinstance(nm, ast.Name) and nm.id == ga.params[1]:
+                d = base.attrs.get(tgt.attr, NotImplemented)
+                if d is not NotImplemented and not isinstance(d, Abs):
+                    return d
+        return NotImplemented
+
     def getattr(self, base, attr, node=None):
         if isinstance(base, Abs):
             if attr in base.attrs:
@@ -518,6 +541,37 @@ class Evaluator:
                     r = self.builtin_method(base, f.attr, args)
                     if r is not NotImplemented:
                         return r
+                    if base is None or type(base) in (
+                            str, int, float, bool, list, dict, tuple, set):
+                        if not hasattr(base, f.attr):
+                            # e.g. [].validate(): Python raises here
+                            raise Raised("builtins.AttributeError")
+                if isinstance(base, Abs) and isinstance(base.cls, ClassInfo) \
+                        and f.attr not in base.attrs \
+                        and not any(k.defines(f.attr)
+                                    for k in base.cls.mro_classes()):
+                    d = self.getattr_delegate(base)
+                    if d is not NotImplemented:
+                        if not hasattr(d, f.attr):
+                            self.events.append(("undefined-method", base.label,
+                                                f.attr, None))
+                            raise Raised("builtins.AttributeError")
+                        r = self.builtin_method(d, f.attr, args)
+                        if r is not NotImplemented:
+                            return r
+                if isinstance(base, Abs) and isinstance(base.cls, ClassInfo) \
+                        and f.attr not in base.attrs \
+                        and not any(k.defines(f.attr)
+                                    for k in base.cls.mro_classes()) \
+                        and base.cls.find_method("__getattr__") is None \
+                        and not any(hasattr(BUILTIN_TYPES.get(b, object),
+                                            f.attr)
+                                    for b in base.cls.builtin_bases()):
+                    # no class of the hierarchy defines the name: Python
+                    # raises AttributeError here
+                    self.events.append(("undefined-method", base.label,
+                                        f.attr, None))
+                    raise Raised("builtins.AttributeError")
                 raise Unsupported("table evaluator: call %s" %
                                   unparse(node)[:80])
             target = ent
@@ -611,6 +665,9 @@ class Evaluator:
                 return False
             # concrete python values are never instances of repo classes
             if isinstance(value, (str, int, float, list, dict, tuple, bool)):
+                return False
+            # a class / function object (builtins.object, ...) is not one
+            if isinstance(value, (External, ClassInfo, FuncInfo)):
                 return False
         if d in BUILTIN_TYPES:
             return isinstance(value, BUILTIN_TYPES[d])
